@@ -20,6 +20,15 @@ pub(crate) fn convert(
         return None;
     }
 
+    if state.parent_defs.contains(&node) {
+        log::warn!("Recursive 'mask' detected: {}", node.element_id());
+        return None;
+    }
+
+    let mut mask_state = state.clone();
+    mask_state.parent_defs.push(node);
+    let state = &mask_state;
+
     let units = node
         .attribute(AId::MaskUnits)
         .unwrap_or(Units::ObjectBoundingBox);
